@@ -4,6 +4,7 @@ package carddav
 
 import (
 	"net/http"
+	"net/url"
 	"strings"
 
 	"github.com/emersion/go-webdav/internal"
@@ -202,7 +203,10 @@ func VerifH_C12_WellKnown() {
 	rec := newVerifRecorder()
 	h.ServeHTTP(rec, r)
 	vrt.Assert(rec.code == 307 || rec.code == 308, "well-known URI: answered with a redirect that preserves the method (307 or 308)")
-	vrt.Assert(rec.hdr.Get("Location") == principal, "well-known URI: redirects to exactly the backend's principal path")
+	// the Location may be written in any equivalent form (escaped, absolute):
+	// what counts is the path a client resolves it to
+	loc, lerr := url.Parse(rec.hdr.Get("Location"))
+	vrt.Assert(lerr == nil && loc != nil && loc.Path == principal, "well-known URI: redirects to exactly the backend's principal path")
 	vrt.Assert(len(be.calls) == 0 && be.mutations == 0, "well-known URI: no backend operation is carried out")
 	vrt.Reach("well-known/" + method)
 }
